@@ -352,6 +352,43 @@ func runC11(s *scn.Scenario, res *scn.Result) {
 	res.NonTrivial = len(pipes) >= 2 && res.Preemptions >= 1
 }
 
+// runRev executes every pipeline of the scenario in this (fresh) process, one
+// after the other in REVERSE order, as one task without preemption.
+func runRev(s *scn.Scenario, res *scn.Result) {
+	for i := range s.Inputs {
+		if v := s.Inputs[i].Version; v != "" {
+			if _, ok := sharedVersions[v]; !ok {
+				nv, err := version.New(v)
+				if err != nil {
+					res.Infra = "bad version in scenario: " + v
+					return
+				}
+				sharedVersions[v] = nv
+			}
+		}
+	}
+	pipes := flatten(s)
+	recs := make([]*pipeRec, len(pipes))
+	zzsim.Init(refConfig(s))
+	applyKnob(s.Knob)
+	zzsim.Spawn(func() {
+		for k := len(pipes) - 1; k >= 0; k-- {
+			recs[k] = &pipeRec{}
+			runParse(s, pipes[k].pl, recs[k])
+			runOps(s, pipes[k].pl, recs[k])
+		}
+	})
+	zzsim.Run()
+	res.Steps = zzsim.Steps
+	for k := range pipes {
+		h := ""
+		if recs[k] != nil && recs[k].done {
+			h = recs[k].hash()
+		}
+		res.PipeHashes = append(res.PipeHashes, h)
+	}
+}
+
 // runIso executes ONE pipeline alone in this (fresh) process and reports the
 // hash of everything it observed: the reference "the same work done alone".
 func runIso(s *scn.Scenario, k int, res *scn.Result) {
